@@ -72,15 +72,21 @@ PROPS = {
     "C01": {
         "level": "proof",
         "lean_modules": ["SqlizeModel.Props.C01"],
-        "theorems": ["Sqlize.C01.columns", "Sqlize.Abs.columns_up", "Sqlize.Abs.Merge.merge_correct", "Sqlize.Abs.emitUp_correct", "Sqlize.C01.printed_columns", "Sqlize.walkCols_up_refines", "Sqlize.C01.diffed_columns", "Sqlize.Table.diffCols2_names", "Sqlize.Table.diff_cols_tagged", "Sqlize.C01.columns_from_scripts", "Sqlize.columns_end_to_end"],
+        "theorems": ["Sqlize.C01.columns", "Sqlize.Abs.columns_up", "Sqlize.Abs.Merge.merge_correct", "Sqlize.Abs.emitUp_correct", "Sqlize.C01.printed_columns", "Sqlize.walkCols_up_refines", "Sqlize.C01.diffed_columns", "Sqlize.Table.diffCols2_names", "Sqlize.Table.diff_cols_tagged", "Sqlize.C01.columns_from_scripts", "Sqlize.columns_end_to_end",
+                     "Sqlize.C01.indexes_and_keys_from_scripts", "Sqlize.elems_end_to_end", "Sqlize.Abs.Idx.emit_correct", "Sqlize.Abs.Idx.emitKeep_correct",
+                     "Sqlize.Table.walkIdx_refines", "Sqlize.Table.walkFk_refines", "Sqlize.Table.diff_elems"],
         "suites": [{"name": "pair"}],
         "corr_points": ["load-old", "load-new", "state-old", "state-new", "Diff", "state-diff", "StringUp"],
         "rule": PAIR_RULE,
         "trusted_base": COMMON_TB + PAIR_TB,
         "assumptions": PAIR_ASSUME,
-        "explanation": "Proved for all inputs: the column-order core (L-merge o L-walk, Sqlize.C01.columns). Not yet proved: the refinement "
-                       "from the Impl walk (slices + position maps) to the abstract walk and the attribute/index/foreign-key lemmas; the full "
-                       "statement Sqlize.C01.Statement(_partial) is decided on every run by correspondence (model = code on state and text) plus the "
+        "explanation": "Proved for all inputs: the column-order core (Sqlize.C01.columns); its refinement from the Impl walk and from Table.Diff's loops "
+                       "(printed_columns, diffed_columns); end to end from two scripts of any length through the MySQL reader model, Migration.Diff and the "
+                       "walks: the ADD/DROP COLUMN statements turn the reference engine's old column order into the new one (columns_from_scripts), the "
+                       "CREATE/DROP INDEX statements its old index list into the new one up to order, the ADD/DROP foreign-key statements its old key list "
+                       "into the new one unless a key is redefined in place (indexes_and_keys_from_scripts). Not proved: column attributes (MODIFY), the primary "
+                       "key, drop suppression of indexes on dropped columns, other dialects; the full statement Sqlize.C01.Statement(_partial) is decided on "
+                       "every run by correspondence (model = code on state and text) plus the "
                        "executable predicate Spec.c01 (reference DDL engine) on the migration text the Go code printed.",
     },
     "C02": {
